@@ -43,6 +43,8 @@ type hty struct {
 	raw      string   // func: its Coq type written out (the function itself at smaller fuel: self_)
 	rawTps   []string // ... and the type variables it mentions
 	untyped  bool // int: an untyped constant
+	monadic  bool   // func: a function of another package (extern:): its result is in res
+	own      *heown // eptr: the cell variable and slice field the pointer points into (fn_heap_eptr.go)
 }
 
 // hshape: what a translated function needs besides its Go arguments, when it is used as a value
@@ -70,6 +72,7 @@ var (
 	htStr  = &hty{k: "str"}
 	htUnit = &hty{k: "unit"}
 	htUnt  = &hty{k: "int", untyped: true}
+	htByte = &hty{k: "int", name: "byte"}
 )
 
 func (t *hty) coq() string {
@@ -94,6 +97,10 @@ func (t *hty) coq() string {
 		return s
 	case "slice":
 		return "list " + parenT(t.elem.coq())
+	case "eptr":
+		return "option Z"
+	case "esnap":
+		return "option " + parenT(t.elem.coq())
 	case "func":
 		return t.funcCoq("")
 	}
@@ -144,6 +151,8 @@ func (t *hty) funcCoq(heapT string) string {
 		} else {
 			ps = append(ps, "res ("+rs+")")
 		}
+	case t.monadic:
+		ps = append(ps, "res "+paren(rs))
 	default:
 		ps = append(ps, rs)
 	}
@@ -173,7 +182,7 @@ func (t *hty) mentions(set map[string]bool) {
 		for _, a := range t.args {
 			a.mentions(set)
 		}
-	case "slice":
+	case "slice", "eptr", "esnap":
 		t.elem.mentions(set)
 	case "func":
 		for _, tp := range t.rawTps {
@@ -205,6 +214,9 @@ type hgen struct {
 	// stateful callback parameters: "Func.param" / "Recv.Method.param" (directive and inferred)
 	stateful map[string]bool
 	decls    map[*types.Func]*ast.FuncDecl
+	externs  map[string]bool   // directive extern:pkg.F: a function of another package as a function argument
+	normText map[string]string // the functions that were normalised before translation (fn_heap_norm.go): their text
+	pointedInto map[string]bool // "S.F": slice fields of cells into whose elements pointers are taken (fn_heap_eptr.go)
 }
 
 type hparam struct {
@@ -239,6 +251,12 @@ type hfunc struct {
 	retRecv    bool // the only result is the receiver itself (return c): not a result of the translation
 	recvNil    bool // the receiver pointer is compared with nil here or in a callee on it: argument <recv>_nil
 	tparams    []string
+	externs    []*hextern // functions of other packages it (or a callee) calls: function arguments
+}
+
+type hextern struct {
+	key string // pkg.F
+	v   *hvar
 }
 
 func heapSpecs(specs []string) bool {
@@ -266,6 +284,70 @@ func (im *hfakeImporter) Import(path string) (*types.Package, error) {
 	return p, nil
 }
 
+// hmodImporter: packages of the module the translated package belongs to are parsed and type-checked
+// from their source (so that their types, constants and function signatures are known: mdiff uses
+// slice.Edit, slice.OpEmit, slice.EditScript); everything else is an empty package, as before.
+type hmodImporter struct {
+	fake      *hfakeImporter
+	root, mod string
+	done      map[string]*types.Package
+	busy      map[string]bool
+}
+
+func newHmodImporter(dir string) *hmodImporter {
+	im := &hmodImporter{fake: &hfakeImporter{pkgs: map[string]*types.Package{}}, done: map[string]*types.Package{}, busy: map[string]bool{}}
+	for d := dir; ; d = filepath.Dir(d) {
+		if data, err := os.ReadFile(filepath.Join(d, "go.mod")); err == nil {
+			for _, line := range strings.Split(string(data), "\n") {
+				if strings.HasPrefix(line, "module ") {
+					im.root, im.mod = d, strings.TrimSpace(strings.TrimPrefix(line, "module "))
+				}
+			}
+			break
+		}
+		if d == filepath.Dir(d) {
+			break
+		}
+	}
+	return im
+}
+
+func (im *hmodImporter) Import(path string) (*types.Package, error) {
+	if p := im.done[path]; p != nil {
+		return p, nil
+	}
+	if im.root == "" || !strings.HasPrefix(path, im.mod+"/") || im.busy[path] {
+		return im.fake.Import(path)
+	}
+	im.busy[path] = true
+	defer delete(im.busy, path)
+	pdir := filepath.Join(im.root, strings.TrimPrefix(path, im.mod+"/"))
+	ents, err := os.ReadDir(pdir)
+	if err != nil {
+		return im.fake.Import(path)
+	}
+	var files []*ast.File
+	for _, e := range ents {
+		n := e.Name()
+		if e.IsDir() || !strings.HasSuffix(n, ".go") || strings.HasSuffix(n, "_test.go") {
+			continue
+		}
+		if pf, err := parser.ParseFile(fset, filepath.Join(pdir, n), nil, 0); err == nil {
+			files = append(files, pf)
+		}
+	}
+	if len(files) == 0 {
+		return im.fake.Import(path)
+	}
+	conf := types.Config{Importer: im, Error: func(error) {}}
+	pkg, _ := conf.Check(path, fset, files, nil)
+	if pkg == nil {
+		return im.fake.Import(path)
+	}
+	im.done[path] = pkg
+	return pkg, nil
+}
+
 // fnHeapGenerate: the heap backend for one anchors.d entry.
 func fnHeapGenerate(f *ast.File, specs []string) (text string, lostMsgs []string) {
 	defer func() {
@@ -279,12 +361,19 @@ func fnHeapGenerate(f *ast.File, specs []string) (text string, lostMsgs []string
 		}
 	}()
 	g := &hgen{cells: map[string]bool{}, structs: map[string]*hstruct{}, funcs: map[*types.Func]*hfunc{},
-		stateful: map[string]bool{}, decls: map[*types.Func]*ast.FuncDecl{}}
+		stateful: map[string]bool{}, decls: map[*types.Func]*ast.FuncDecl{}, externs: map[string]bool{}}
 	dir := filepath.Dir(fset.Position(f.Package).Filename)
 	ents, err := os.ReadDir(dir)
 	if err != nil {
 		fail("cannot read %s: %v", dir, err)
 	}
+	want := map[string]bool{}
+	for _, sp := range specs {
+		if !strings.Contains(sp, ":") {
+			want[sp] = true
+		}
+	}
+	g.normText = map[string]string{}
 	for _, e := range ents {
 		n := e.Name()
 		if e.IsDir() || !strings.HasSuffix(n, ".go") || strings.HasSuffix(n, "_test.go") {
@@ -294,11 +383,16 @@ func fnHeapGenerate(f *ast.File, specs []string) (text string, lostMsgs []string
 		if err != nil {
 			fail("parse error in %s: %v", n, err)
 		}
+		// switch -> if chain, inlining of local function literals (fn_heap_norm.go)
+		pf, texts := hNormalizeFile(pf, filepath.Join(dir, n), want)
+		for k, t := range texts {
+			g.normText[k] = t
+		}
 		g.files = append(g.files, pf)
 	}
 	g.info = &types.Info{Types: map[ast.Expr]types.TypeAndValue{}, Defs: map[*ast.Ident]types.Object{}, Uses: map[*ast.Ident]types.Object{},
 		Selections: map[*ast.SelectorExpr]*types.Selection{}, Instances: map[*ast.Ident]types.Instance{}, Implicits: map[ast.Node]types.Object{}}
-	conf := types.Config{Importer: &hfakeImporter{pkgs: map[string]*types.Package{}}, Error: func(error) {}}
+	conf := types.Config{Importer: newHmodImporter(dir), Error: func(error) {}}
 	g.pkg, _ = conf.Check(f.Name.Name, fset, g.files, g.info)
 	if g.pkg == nil {
 		fail("type check of %s failed", dir)
@@ -321,6 +415,8 @@ func fnHeapGenerate(f *ast.File, specs []string) (text string, lostMsgs []string
 			}
 		case strings.HasPrefix(sp, "stateful:"):
 			g.stateful[strings.TrimPrefix(sp, "stateful:")] = true
+		case strings.HasPrefix(sp, "extern:"):
+			g.externs[strings.TrimPrefix(sp, "extern:")] = true
 		case strings.Contains(sp, ":"):
 			lostMsgs = append(lostMsgs, "fn "+sp+" lost: directive not supported by the heap backend")
 		default:
@@ -360,6 +456,7 @@ func fnHeapGenerate(f *ast.File, specs []string) (text string, lostMsgs []string
 		g.funcs[fn.obj] = fn
 	}
 	g.inferStateful()
+	g.scanPointedInto()
 	var emitted []string
 	for _, fn := range g.order {
 		g.translate(fn, &emitted)
@@ -385,8 +482,12 @@ func fnHeapGenerate(f *ast.File, specs []string) (text string, lostMsgs []string
 }
 
 func namedOf(t types.Type) *types.Named {
+	if t == nil {
+		return nil
+	}
+	t = types.Unalias(t)
 	if p, ok := t.(*types.Pointer); ok {
-		t = p.Elem()
+		t = types.Unalias(p.Elem())
 	}
 	n, _ := t.(*types.Named)
 	return n
@@ -500,6 +601,9 @@ func (g *hgen) structOf(n *types.Named) *hstruct {
 
 // typeOf: the representation of a Go type; nil when it has none.
 func (g *hgen) typeOf(t types.Type, at ast.Node) *hty {
+	if t != nil {
+		t = types.Unalias(t)
+	}
 	switch v := t.(type) {
 	case *types.Basic:
 		switch {
@@ -512,6 +616,8 @@ func (g *hgen) typeOf(t types.Type, at ast.Node) *hty {
 			switch v.Kind() {
 			case types.Int, types.Int64, types.Int32, types.Uint, types.Uint32:
 				return htInt
+			case types.Uint8:
+				return htByte // compared and copied only: arithmetic on it is lost
 			}
 		case v.Info()&types.IsString != 0:
 			return htStr
@@ -808,6 +914,11 @@ type hctx struct {
 	selfVar   *hvar        // the function itself (at the smaller fuel) for the recursive calls inside its loops
 	ctorNamed *types.Named // a constructor: the instance of the value struct it makes
 	ctorRest  []ast.Stmt   // ... and its body after q := new(V)
+	// element pointers (fn_heap_eptr.go)
+	eptrObjs  map[types.Object]bool // the variables bound to slice.PtrAt(...)
+	lhsIdents map[*ast.Ident]bool   // the identifiers that are assignment targets
+	epState   map[*hvar]*hepState
+	synthWin  map[ast.Node]*hvar // range over a window: the list that holds it
 }
 
 func (c *hctx) fresh(base string) string {
@@ -918,6 +1029,9 @@ func (c *hctx) useStruct(s *hstruct, at ast.Node) {
 			if ft.k == "struct" {
 				c.useStruct(ft.st, at)
 			}
+			if ft.k == "slice" && ft.elem.k == "struct" {
+				c.useStruct(ft.elem.st, at)
+			}
 		default:
 			c.lostAt(at, "struct type %s with the field %s of type %s", s.name, s.fnames[i], ft.name)
 		}
@@ -951,6 +1065,7 @@ func (c *hctx) function() {
 	c.ctorPattern()
 	// ---- the heap this function touches
 	c.scanHeap()
+	c.checkPointedFields()
 	if fn.cell != "" {
 		cs := g.structs[fn.cell]
 		c.useStruct(cs, fd)
@@ -1241,6 +1356,9 @@ func (c *hctx) sigVars() []*hvar {
 			vs = append(vs, p.st)
 		}
 	}
+	for _, e := range c.fn.externs {
+		vs = append(vs, e.v)
+	}
 	if c.fn.readsHeap || c.fn.writesHeap {
 		vs = append(vs, c.heap)
 	}
@@ -1369,6 +1487,10 @@ func (c *hctx) emit(body term) {
 	fn.fuel = c.fuel || fn.selfRec
 	doc := strings.ReplaceAll(strings.ReplaceAll(src(&ast.FuncDecl{Recv: fn.decl.Recv, Name: fn.decl.Name, Type: fn.decl.Type}), "(*", "( *"), "*)", "* )")
 	b.WriteString("(* " + doc + " *)\n")
+	if nt := c.g.normText[fn.spec]; nt != "" {
+		nt = strings.NewReplacer("(*", "( *", "*)", "* )", "\"", "''", "\t", "  ").Replace(nt)
+		b.WriteString("(* normalised before translation (switch -> if chain, local function literals inlined at their calls):\n" + nt + "\n*)\n")
+	}
 	switch {
 	case fn.selfRec:
 		b.WriteString("Fixpoint " + fn.name + tp + c.binders(sig) + " (fuel : nat) {struct fuel} : res " + paren(c.retType()) + " :=\n  match fuel with\n  | O => OutOfFuel\n  | S fuel =>\n    " + render(body, 2, false) + "\n  end.\n")
